@@ -404,7 +404,7 @@ def run(chk):
         chk.oracle('corpus:' + name, [case], ORACLES[name])
 
     # ---------------------------------------------------------------- annotations
-    N = 260 if tier == 'quick' else 2500
+    N = 260 if tier == 'quick' else 700
     anns = []
     for idx in range(N):
         if idx < 26 * 3:
